@@ -54,8 +54,18 @@ func c19(r *Report) propMeta {
 	r.DeferredSend("key-released-on-every-path", "yoda.SubmitReport", "field:Context.freeKeys")
 	r.Dominated("subscribe-before-pending-snapshot", "yoda.runImpl", CallEff("EventsClient.Subscribe"), CallEff("ABCIClient.ABCIQuery", "const:/band.oracle.v1.Query/PendingRequests"))
 
+	r.Rule("C19.R7", "RPC helper: a result or an error, never neither")
+	abci := "yoda.abciQuery"
+	r.Gate("query-ok-only-if-rpc-ok", abci, RetOK(), []Cond{nilErrOf("ABCIClient.ABCIQuery")}, GateOpts{})
+	r.RetOKHas("query-ok-returns-rpc-result", abci, 0, "^extract:0", "call:ABCIClient.ABCIQuery")
+	r.RetErrDerives("query-failure-carries-rpc-error", abci, "ABCIClient.ABCIQuery")
+	for f, use := range map[string]string{"yoda.GetRequest": "BinaryCodec.MustUnmarshal", "yoda.GetDataSourceHash": "BinaryCodec.MustUnmarshal", "yoda.GetExecutable": "BinaryCodec.Unmarshal"} {
+		r.Gate("fetch-uses-result-only-if-query-ok", f, CallEff(use, "field:ResultABCIQuery.Response"), []Cond{nilErrOf("yoda.abciQuery")}, GateOpts{})
+	}
+
 	return propMeta{
 		Decided: []string{
+			"R7 abciQuery returns nil error only together with the RPC result of a successful ABCIQuery, and every other return carries an error that derives from the failed ABCIQuery (never a nil result with a nil error after the retries); the three fetchers touch the result only under err == nil",
 			"R1 handleRawRequest sends exactly one result on every path; every result is NewRawReport(req.externalID, …); the exit-code/output of the executor is used only when load, sign and Exec all succeeded, every other send carries 255",
 			"R2 handleRawRequests: channel buffered to len(reqs), one goroutine per element and one receive per element of the same slice, every received report appended",
 			"R3 handleRequest: at most one message, sent only if the validator is requested and every data-source hash resolved, always sent once handleRawRequests ran; message = NewMsgReportData(id, gathered reports, validator) with one raw request per req.RawRequests entry carrying its external id — the shape CheckValidReport demands",
